@@ -10,7 +10,7 @@
 #include <unistd.h>
 using namespace cosched;
 
-static long g_allocs = 0, g_fail_alloc = -1, g_copies = 0, g_fail_copy = -1;
+static long g_allocs = 0, g_fail_alloc = -1, g_copies = 0, g_fail_copy = -1, g_assigns = 0, g_fail_assign = -1;
 struct InjectedFault { };
 template <class T> struct FA {
     using value_type = T; FA() = default; template <class U> FA(const FA<U>&) {}
@@ -23,7 +23,8 @@ template <int PAD> struct Elem {
     int v; char pad[PAD];
     Elem(int x = 0) : v(x) { memset(pad, 0x5a, PAD); }
     Elem(const Elem& o) : v(o.v) { if (__atomic_add_fetch(&g_copies, 1, __ATOMIC_SEQ_CST) == g_fail_copy) throw InjectedFault(); memcpy(pad, o.pad, PAD); }
-    Elem& operator=(const Elem& o) { v = o.v; memcpy(pad, o.pad, PAD); return *this; }
+    // (the k-th assignment throws: pop / try_pop assign the stored item to the caller's object; the item is consumed all the same)
+    Elem& operator=(const Elem& o) { if (__atomic_add_fetch(&g_assigns, 1, __ATOMIC_SEQ_CST) == g_fail_assign) throw InjectedFault(); v = o.v; memcpy(pad, o.pad, PAD); return *this; }
 };
 
 static vh::TraceOut TR;
@@ -52,7 +53,9 @@ static int g_live;     // threads that have not finished their program
 template <class Q, bool B> static void body(Q& q, int t) {
     int T = t + 1;
     for (auto& op : PROG[t]) {
-        auto f = vh::split(op, ':'); const std::string& o = f[0]; int v = f.size() > 1 ? atoi(f[1].c_str()) : 0;
+        auto f = vh::split(op, ':'); std::string o = f[0]; int v = f.size() > 1 ? atoi(f[1].c_str()) : 0;
+        // "w<op>": the operation starts only once some other thread is asleep inside the queue (bounded wait; sleeping paths are entered on purpose)
+        if (o[0] == 'w') { o = o.substr(1); for (long i = 0; i < 300000 && num_blocked() < 1; i++) yield_point(); }
         if (o == "abort") {
             // precondition established from scheduler-known facts (DESIGN 4.x): every other live thread is blocked
             while (num_blocked() < __atomic_load_n(&g_live, __ATOMIC_SEQ_CST) - 1) yield_point();
@@ -80,7 +83,7 @@ template <class Q, bool B> static int run_one(int cap, unsigned long seed, int d
     g_allocs = 0; g_copies = 0;
     long fa = g_fail_alloc, fc = g_fail_copy; g_fail_alloc = -1; g_fail_copy = -1;      // the queue's own construction is not a fault target
     Q* q = new Q; Ops<Q, B>::cap(*q, cap);
-    g_allocs = 0; g_copies = 0; g_fail_alloc = fa; g_fail_copy = fc;
+    g_allocs = 0; g_copies = 0; g_assigns = 0; g_fail_alloc = fa; g_fail_copy = fc;
     g_live = N;
     Sched S; S.stall_limit = 30000; S.log_schedule = true;
     focus_only(false);
@@ -112,7 +115,7 @@ template <class Q, bool B> static int run(int argc, char** argv) {
             if (pid == 0) {
                 alarm(60);
                 TR.open(tmp); setvbuf(TR.f, nullptr, _IOLBF, 0);
-                if (kind == "alloc") g_fail_alloc = k; else g_fail_copy = k;
+                if (kind == "alloc") g_fail_alloc = k; else if (kind == "assign") g_fail_assign = k; else g_fail_copy = k;
                 run_one<Q, B>(cap, 77 + sd, sd == 0 ? 0 : dens[sd], true, st);
                 TR.close(); _exit(0);
             }
